@@ -4,15 +4,17 @@ Models: `Tough/Model/EditorSign.lean` (who signs, what incoming metadata is acce
 `Tough/Model/Sig.lean` (what the client's verification accepts, C01); `Tough/Model/Editor.lean` (what
 the signed documents contain, C17); `Tough/Model/Client.lean` (the loading client).
 
-Proved here: the decision logic.  Every signature set the editor produces for a non-root role
-verifies under that role's keys and threshold (whatever keys were available); incoming metadata is
-incorporated only if it meets the delegating role's threshold and is not older, and then the client —
-which runs the same check on the same registered keys — accepts it.  The end-to-end statement
-(`editor_roundtrip`, below as a comment with what is missing) is checked by correspondence.
+Proved here: the decision logic — every signature set the editor produces for a non-root role verifies
+under that role's keys and threshold (whatever keys were available); incoming metadata is incorporated
+only if it meets the delegating role's threshold and is not older — and the end-to-end statement
+`editor_roundtrip`: the update cycle of the client model, run on the files `write` produces
+(`Tough/Model/Publish.lean`), succeeds and yields exactly the documents that were signed
+(`Tough/Proofs/Publish*.lean`, by induction over the delegation tree).
 -/
 import Tough.Model.EditorSign
 import Tough.Proofs.Sig
 import Tough.Proofs.ClientNames
+import Tough.Proofs.PublishCycle
 namespace Tough.C10
 open Tough.Sig Tough.EditorSign
 
@@ -146,13 +148,98 @@ example : namesDistinct [0, 0] = false ∧ namesDistinct [0, 1, 2] = true := by 
 /-- the hypotheses of `signRole_verifies` are satisfiable with a threshold above one -/
 example : ∃ sigs, signRole false [1, 2, 3] [3, 9, 1, 1] ⟨[1, 3, 4], 2⟩ 7 = some sigs := ⟨_, rfl⟩
 
-/-
-`editor_roundtrip` (full statement, NOT proved): for every editing program the editor accepts and signs,
-`cycle cfg (serve written) (some root) ⟨{}, []⟩ = (.ok v, _)` with `v`'s targets, delegation tree, versions
-and expirations those of the program.  Missing for a proof: a model of the editor's document
-construction over the client's document types (content identity `msg` as a function of content), and the
-symbolic execution of `cycle` on the written files (snapshot / timestamp entries describe the written
-buffers, C17's `Editor` gives the contents).  It is checked by correspondence on generated programs.
--/
+/-- a delegated role signed by `SignedRole::new` with its delegation as key holder meets that delegation's
+check (the one `TgtOk` asks for at every node of the tree) -/
+theorem deleg_signRole_verifies (d : Client.Deleg) (r : Client.DRole) (avail : List KeyId) (m : Msg) (sigs : List Sig)
+    (hfind : d.roles.find? (fun x => x.name == r.name) = some r)
+    (h : signRole false d.keys avail ⟨r.keyids, r.threshold⟩ m = some sigs) :
+    Client.delegVerify d r.name m sigs = true := by
+  unfold Client.delegVerify
+  rw [hfind]
+  exact signRole_verifies _ _ _ _ _ h
+
+open Tough.Publish in
+/-- **C10 (round trip).** The editor has built the tree of targets roles (`p.tree`: documents with their
+signatures, every delegated role attached under the role that delegates to it — `TgtOk`, whose signature
+conditions are what `signRole_verifies` / `add_role_checked` / `update_checked` provide), and `sign`
+succeeds: timestamp, snapshot and targets are signed by `SignedRole::new` with whatever keys were
+available, the role names are pairwise distinct and every listed target is reachable through the path
+sets (`sign`'s two final checks).  `write` puts the files on disk under the names of `Role::filename`,
+with the snapshot and timestamp entries describing the written buffers (`Signed.server`).  Then a client
+that holds the same (validly self-signed) root, with a fresh datastore, a clock before the four
+expiration times, room for the timestamp file and at least one root update allowed, loads the directory
+successfully and sees exactly what was put in: the same root, the timestamp and snapshot as built, and
+the identical tree of targets documents — every target entry, delegation, key id, threshold, path set,
+version and expiration of every role. -/
+theorem editor_roundtrip (cfg : Client.Config) (ser : Ser) (p : Signed) (ds : Client.Datastore)
+    (availT availS availG : List KeyId) (rkT rkS rkG : RoleKeys)
+    (hroot : Client.rootVerify p.root .root p.root.msg p.root.sigs = true)
+    (hroleT : p.root.role .timestamp = some rkT) (hroleS : p.root.role .snapshot = some rkS)
+    (hroleG : p.root.role .targets = some rkG)
+    (hsignT : signRole false p.root.keys availT rkT p.tsMsg = some p.tsSigs)
+    (hsignS : signRole false p.root.keys availS rkS p.snapMsg = some p.snapSigs)
+    (hsignG : signRole false p.root.keys availG rkG (Client.Tgt.doc p.tree).msg = some (Client.Tgt.doc p.tree).sigs)
+    (htree : TgtOk p.tree)
+    (hnames : namesDistinct (Cache.tgtRoleNames p.tree) = true) (hvalid : p.tree.validate = true)
+    (hupd : 0 < cfg.limits.maxRootUpdates)
+    (hsize : ser.len (.timestamp (p.timestamp ser)) ≤ cfg.limits.maxTimestampSize)
+    (hexp : cfg.safe = true → cfg.now ≤ p.root.expires ∧ cfg.now ≤ p.tsExpires ∧ cfg.now ≤ p.snapExpires ∧
+      cfg.now ≤ (Client.Tgt.doc p.tree).expires)
+    (hfresh : ds.ts = .absent ∧ ds.snap = .absent ∧ ds.tgt = .absent)
+    (hclock : cfg.safe = true → ∀ t0, ds.time = some t0 → t0 ≤ cfg.now) :
+    ∃ st', Client.cycle cfg (p.server ser) (some p.root) ⟨ds, []⟩ =
+      (.ok ⟨p.root, p.timestamp ser, p.snapshot ser, p.tree⟩, st') := by
+  apply cycle_pub ser p ds hroot
+  · simp only [Client.rootVerify, hroleT]; exact signRole_verifies _ _ _ _ _ hsignT
+  · simp only [Client.rootVerify, hroleS]; exact signRole_verifies _ _ _ _ _ hsignS
+  · simp only [Client.rootVerify, hroleG]; exact signRole_verifies _ _ _ _ _ hsignG
+  · exact htree
+  · exact (namesDistinct_iff _).mp hnames
+  · exact hvalid
+  · exact hupd
+  · exact hsize
+  · exact hexp
+  · exact hfresh
+  · exact hclock
+
+open Tough.Publish in
+/-- what the written snapshot and timestamp say about the written files: version, length and digest of
+exactly the buffer that is in the file of that name -/
+theorem written_meta_describes_files (ser : Ser) (p : Signed) (hn : (Cache.tgtRoleNames p.tree).Nodup) :
+    (p.timestamp ser).snapshotMeta = some ⟨(p.snapshot ser).version, some (ser.len (.snapshot (p.snapshot ser))),
+      some (ser.dig (.snapshot (p.snapshot ser)))⟩ ∧
+    (p.server ser).get (.snapshot (Client.versioned p.root.consistent (p.snapshot ser).version)) =
+      .file ⟨.snapshot (p.snapshot ser), some (ser.len (.snapshot (p.snapshot ser))), ser.dig (.snapshot (p.snapshot ser)), .none⟩ ∧
+    (∀ q ∈ tgtNodes p.tree,
+      (p.snapshot ser).find (.role q.1.name) = some ⟨(Client.Tgt.doc q.2).version,
+        some (ser.len (.targets (Client.Tgt.doc q.2))), some (ser.dig (.targets (Client.Tgt.doc q.2)))⟩ ∧
+      (p.server ser).get (.role q.1.name (Client.versioned p.root.consistent (Client.Tgt.doc q.2).version)) =
+        .file ⟨.targets (Client.Tgt.doc q.2), some (ser.len (.targets (Client.Tgt.doc q.2))),
+          ser.dig (.targets (Client.Tgt.doc q.2)), .none⟩) :=
+  ⟨rfl, server_get_snapshot ser p hn, fun q hq => ⟨snapshot_find_role ser p hn q hq, server_get_role ser p hn q hq⟩⟩
+
+/-! a little signed repository with a delegated role: the hypotheses of `editor_roundtrip` hold -/
+namespace Ex
+open Tough.Client Tough.Publish
+def rootE : Root := ⟨1, 100, true, [1, 2, 3, 4], some ⟨[1], 1⟩, some ⟨[3], 1⟩, some ⟨[4], 1⟩, some ⟨[2], 1⟩, 11, [⟨1, some 1, 11⟩]⟩
+def roleE : TargetsDoc := ⟨3, 100, [(0, ⟨5, 77⟩)], none, 15, [⟨5, some 5, 15⟩]⟩
+def dE : Deleg := ⟨[5], [⟨9, [5], 1, [0]⟩]⟩
+def tgE : TargetsDoc := ⟨7, 100, [], some dE, 14, [⟨4, some 4, 14⟩]⟩
+def treeE : Tgt := .mk tgE (.cons ⟨9, [5], 1, [0]⟩ (.mk roleE .nil) .nil)
+def pE : Signed := ⟨rootE, treeE, 6, 100, 13, [⟨3, some 3, 13⟩], 5, 100, 12, [⟨2, some 2, 12⟩]⟩
+def serE : Ser := ⟨fun _ => 10, fun _ => 0⟩
+def cfgE : Config := ⟨⟨100, 100, 100, 100, 8⟩, true, 0⟩
+
+example : rootVerify rootE .root rootE.msg rootE.sigs = true ∧
+    signRole false rootE.keys [2, 3, 4] ⟨[2], 1⟩ pE.tsMsg = some pE.tsSigs ∧
+    signRole false rootE.keys [2, 3, 4] ⟨[3], 1⟩ pE.snapMsg = some pE.snapSigs ∧
+    signRole false rootE.keys [2, 3, 4] ⟨[4], 1⟩ tgE.msg = some tgE.sigs ∧
+    signRole false dE.keys [5] ⟨[5], 1⟩ roleE.msg = some roleE.sigs ∧
+    namesDistinct (Cache.tgtRoleNames treeE) = true ∧ treeE.validate = true := by decide
+
+example : Publish.TgtOk treeE := by
+  simp only [treeE, Publish.TgtOk, tgE, dE, Publish.RolesOk, roleE, Tgt.doc, true_and, and_true]
+  decide
+end Ex
 
 end Tough.C10
